@@ -43,7 +43,7 @@ def gen_case(rng, explicit, snippet_names):
     if explicit:
         attrs += ['[f=${1:f1}]', '[g="${2:f2} x ${4:f4}"]', '[h=${0:f0}]', '[m=${3:f3}${3:f3}]', '[n="a ${1:f1}"]']
         texts += ['a ${1:f1} b ${3:f3}', '${0:f0}', '${2:f2}${2:f2}', 'x ${5:f5}\ny ${1:f1}', 'p ${1:m1\nm2} q', '${2:r1\r\nr2}${1:s}', 'c1\rc2', 'e1\n\ne3',
-                  'a ${1:t1\n} b', '${1:x\x0cy} ${2:p\x85q}', '${3:u\u2028v}w', '${1:\n\n}z', '${2:k\x0bl\x1cm}']
+                  'a ${1:t1\n} b', 'n{${1:f1}}m{{${2:f2}}}', '${1:x\x0cy} ${2:p\x85q}', '${3:u\u2028v}w', '${1:\n\n}z', '${2:k\x0bl\x1cm}']
         attrs += ['[o="${1:v1\nv2}"]', '[id=${1:f1}]', '[class="k ${2:f2}"]', '[id=${1:f1} class="k ${1:f1}"]', '[class="${2:f2} ${1:f1}" id="i${3:f3}"]']
     tree = gen_abbr.gen_tree(rng, names=names, p_text=0.3, texts=texts, attrs=attrs, p_attr=0.45, p_class=0.2, p_id=0.1, p_group=0.12, p_rep=0.15,
                              max_rep=3, classes=['c1', 'c2'], ids=['i1', 'i2'], p_selfclose=0.0, **(dict(max_depth=rng.choice([2, 3, 4])) if rng.random() < 0.88 else
